@@ -581,9 +581,16 @@ def _upgrade_policies(policies, default_policies):
                     rule_default.deprecated_rule.name in old_policies):
                 # A deprecated policy may have been split into several new
                 # ones: every successor gets the operator's value.
-                policies.pop(rule_default.deprecated_rule.name, None)
-                policies[rule_default.name] = old_policies[
-                    rule_default.deprecated_rule.name]
+                old_name = rule_default.deprecated_rule.name
+                policies.pop(old_name, None)
+                if (old_name != rule_default.name and
+                        str(policy._parser.parse_rule(old_policies[old_name]))
+                        == 'rule:%s' % rule_default.name):
+                    # The operator merely aliased the old name to the new
+                    # policy; moving that value would make the new policy
+                    # refer to itself.
+                    continue
+                policies[rule_default.name] = old_policies[old_name]
                 LOG.info('The name of policy %(old_name)s has been upgraded to'
                          '%(new_name)',
                          {'old_name': rule_default.deprecated_rule.name,
